@@ -6,14 +6,50 @@
   racy file verdict `Wharf.HealTS.admissible`); helper lemmas and the invariant: Wharf/Proofs/HealTS.lean.
   Property theorems only.
 
-  Hypotheses are those of `heal_restores` (Props/C06Restore.lean): `SignedWF s`, `TInv t`, `NoDirSymlink s t`
-  (finding F15 stays excluded), `0 < bs`.  No interleaving was found — and none exists in the model — that
-  breaks restoration under these hypotheses.  Why: the validator sends directory wounds, then symlink
-  wounds, then file wounds, into a FIFO channel and the healer handles them in that order, so whenever a
-  symlink or file is healed every signed directory is already in place; every heal step keeps every signed
-  entry that is already as signed, and keeps "no signed directory is a symlink"; so an entry found healthy
-  stays healthy, an entry found wounded has its wound in the channel (or its file index in the queue) until
-  it is healed, and a file can only be rewritten after the validator has sent a real wound for it.
+  AFTER THE REPAIR OF FINDING F15 (see Props/C06Restore.lean).  Every theorem exists in two forms:
+    * `…_any_tree…`: NO hypothesis on the damaged tree besides `TInv` — signed directories may have been replaced
+      by symlinks to anywhere — with `ParentsFirst s` (directories listed parents-first, as `tlc.Walk` lists them);
+    * under its old name with its old hypotheses (`NoDirSymlink s t`, and `ParentsFirst` only where it was
+      needed before).
+  Both follow from one invariant (`Wharf.HealTS.Inv`), started from `ParentsFirst s ∨ NoDirSymlink s t`.  Why it
+  holds: the validator sends directory wounds (in listing order), then symlink wounds, then file wounds, into a
+  FIFO channel and the healer handles them in that order.  What the validator sees at an entry below a signed
+  directory that is a symlink is seen THROUGH the link — healthy or wounded, the invariant does not care (third /
+  fourth disjunct `Linked` of `Inv.dirs` / `syms` / `files`): the link's own DIR wound is ahead of every wound of an
+  entry below it (`Inv.head_plain`: a directory wound is handled only when no link is left above its directory),
+  the healer replaces the link by an empty directory and `healBelow` heals EVERYTHING below it, whatever the
+  verdicts were.  When a symlink wound or file wound is handled, every signed directory is in place
+  (`Inv.allDirs_head`); a file is queued only when its parent directory is in place (`Inv.queueReady`), so the
+  healing goroutine never writes through a link.  Every heal step keeps every signed entry that is already as
+  signed (`Keeps`).
+
+  Two statements had to CHANGE because they are false for the fixed code (instances at the theorems):
+  `inspected_entries_accounted` (fourth conjunct: a file may now be queued before the validator reaches it) and
+  `verdict_on_untouched_entry` (second conjunct: a symlink below a replaced directory may be healed before the
+  validator reaches it).
+
+  Atomicity of the new heal step.  `hWound` for a directory wound is one step of the model although
+  `healBelow` is a long sequence of system calls.  For the property this is harmless: while `healBelow(d)`
+  runs, every verdict the validator forms on an entry at or below `d` is either "healthy" on an entry that is
+  already as signed and stays so, or a wound — and a wound for an entry below `d` that `healBelow` heals anyway
+  is a no-op for the healer when it arrives later (directory: "all good"; symlink: removed and re-created; file:
+  already queued).  A file `i` below `d` may now be queued and rewritten BEFORE the validator reaches it; if the
+  validator then reads it half-written it sends real wounds for `i`, which the healer ignores (`files[i]` is set)
+  while the healing goroutine completes the file regardless: in the model the step `vFile` is then placed before
+  `hFile` (the file is missing on the tree: any verdict with a real wound is admissible).
+
+  Two over-approximating validator steps cover entries observed missing in the middle of a heal call that the
+  model treats as atomic: `vDirLate` (a directory during a multi-level `MkdirAll` or during `healBelow`) and, new
+  with `healBelow`, `vSymlinkLate` (a symlink below a replaced directory before `healBelow` has recreated it): the
+  validator may report ANY directory / symlink entry as wounded.
+
+  Exhaustive exploration of the transition system (compiled model, every interleaving and three racy verdicts per
+  wounded file, builds of at most 5 entries over the paths of Props/C06Restore.lean, a sample of the damaged trees
+  with symlinks anywhere): parents-first, any tree — 92 635 instances, 9.2 million states, no terminal state that
+  does not match, no healer error (again after adding `vSymlinkLate`: 25 264 instances, 2.8 million states);
+  children-first under `NoDirSymlink` — 49 910 instances, no terminal state that does not match.  Children-first
+  with symlinked directories: 57 of 35 320 sampled instances have a non-matching terminal state (717 with the
+  unrepaired model; parents-first the unrepaired model has 359, the repaired one none).
 
   The tie to the real code: `sequential_is_a_schedule` — the run of `validateAndHeal`, which the differential
   harness compares with the Go implementation, is one of the runs of this transition system.
@@ -25,31 +61,57 @@ import Wharf.Props.C06Restore
 namespace Wharf.C06
 open Wharf Wharf.FS Wharf.Validate Wharf.TreeValidate Wharf.Heal Wharf.HealTS
 
-/-- C06 under any schedule: in EVERY terminal, non-failed state reachable from the damaged tree `t` — for every
-    interleaving of validator steps, wound receptions and file rewrites, and every admissible racy file
-    verdict — the tree matches the signed build. -/
+/-- the invariant of every interleaving, in every reachable state -/
+theorem inv_reach {bs : Nat} (hbs : 0 < bs) {maxSize : Nat} {s : Signed} {t : Tree} {σ : State}
+    (hs : SignedWF s) (ht : Wharf.Archive.TInv t) (hm : ParentsFirst s ∨ NoDirSymlink s t)
+    (hr : Reach bs maxSize s (HealTS.init t) σ) : Inv s σ :=
+  (inv_init hs ht hm).reach bs hbs maxSize hs.wf hr
+
+/-- C06 under any schedule, ANY damaged tree (finding F15 repaired): in EVERY terminal, non-failed state
+    reachable from the damaged tree `t` — for every interleaving of validator steps, wound receptions and file
+    rewrites, and every admissible racy file verdict — the tree matches the signed build. -/
+theorem heal_restores_any_tree_any_schedule (bs : Nat) (hbs : 0 < bs) (maxSize : Nat) (s : Signed) (t : Tree)
+    (σ : State) (hs : SignedWF s) (hpf : ParentsFirst s) (ht : Wharf.Archive.TInv t)
+    (hr : Reach bs maxSize s (HealTS.init t) σ) (hterm : σ.terminal) (_hok : σ.failed = false) :
+    C05Tree.Matches s σ.tree :=
+  matches_of_terminal hs (inv_reach hbs hs ht (.inl hpf) hr) hterm
+
+/-- … as first stated (kept; no `ParentsFirst` needed when no signed directory is a symlink). -/
 theorem heal_restores_any_schedule (bs : Nat) (hbs : 0 < bs) (maxSize : Nat) (s : Signed) (t : Tree)
     (σ : State) (hs : SignedWF s) (ht : Wharf.Archive.TInv t) (hno : NoDirSymlink s t)
     (hr : Reach bs maxSize s (HealTS.init t) σ) (hterm : σ.terminal) (_hok : σ.failed = false) :
-    C05Tree.Matches s σ.tree := by
-  have hw : WF s := ⟨hs.clean, hs.distinct, hs.parents⟩
-  have hI := (Inv.init ht (noSymDirs_of_lstat hw ht hno)).reach bs hbs maxSize hw hr
-  obtain ⟨hA, hleaf⟩ := hI.terminal hterm
-  refine ⟨?_, ?_, ?_⟩
-  · intro p hp
-    exact lstat_of_get hI.tinv (hw.nodd (mem_allPaths_dir hp)) (hA p hp)
-  · intro e he
-    have hl : (e.1, Node.symlink e.2) ∈ leaves s := by
-      simp only [leaves, List.mem_append, List.mem_map]
-      exact .inl ⟨e, he, rfl⟩
-    exact lstat_of_get hI.tinv (hw.nodd (leaf_mem_allPaths hl)) (hleaf _ hl)
-  · intro e he
-    have hl : (e.1, Node.file e.2) ∈ leaves s := by
-      simp only [leaves, List.mem_append, List.mem_map]
-      exact .inr ⟨e, he, rfl⟩
-    exact lstat_of_get hI.tinv (hw.nodd (leaf_mem_allPaths hl)) (hleaf _ hl)
+    C05Tree.Matches s σ.tree :=
+  matches_of_terminal hs (inv_reach hbs hs ht (.inr hno) hr) hterm
+
+/-! `ParentsFirst` cannot be dropped from `heal_restores_any_tree_any_schedule` (besides the instance of the
+    sequential schedule, `any_tree_needs_parents_first`, there is one that only a concurrent schedule shows, and
+    that the repair of F15 itself brings about; evaluated with `#eval` on the compiled model, not kernel-checked
+    because every step resolves paths through the link):
+
+      signed  dirs = [a/c, a]  (child listed first),  files = [a/c/f = 1 2 3]
+      disk    a → b (symlink),  b/ (directory),  b/c (regular file)
+      run     [vDir, vDir, hWound, hFile, hWound, vFile [file 0 0..3], hWound, vDone]
+      result  terminal, not failed, tree = b/, b/c/, b/c/f, a/, a/c/ — `a/c/f` is MISSING, `Validate` returns nil.
+
+    Go-level: the DIR wound of `a/c` is handled while `a` is still a link; `Lstat(a/c)` finds the file `b/c` through
+    it, replaces it by a directory, and `healBelow("a/c")` queues `a/c/f`; the healing goroutine rewrites it at
+    once — THROUGH the link, into `b/c/f`.  Then the DIR wound of `a` replaces the link by an empty directory and
+    `healBelow("a")` recreates `a/c` but skips `a/c/f` (`files[0]` is set: "already queued"); the wound the
+    validator sends afterwards is skipped for the same reason.  The validator-first schedule heals this instance
+    (the healing goroutine runs last there), and so did the unrepaired code under every schedule (a file could be
+    queued only after all directory wounds had been handled).  With parents-first listing the wound of `a` is ahead
+    of the wound of `a/c` in the channel, `a` is a directory before anything below it is handled, and the invariant
+    `Inv.queueReady` (a file is queued only when its parent directory is in place) excludes the scenario.  Containers
+    listed by `tlc.Walk` are parents-first. -/
 
 /-- … and therefore a second, fail-fast validation of the healed tree succeeds, under any schedule. -/
+theorem heal_then_valid_any_tree_any_schedule (bs : Nat) (hbs : 0 < bs) (maxSize : Nat) (s : Signed) (t : Tree)
+    (σ : State) (hs : SignedWF s) (hpf : ParentsFirst s) (ht : Wharf.Archive.TInv t)
+    (hr : Reach bs maxSize s (HealTS.init t) σ) (hterm : σ.terminal) (hok : σ.failed = false) :
+    failFastOk bs maxSize s σ.tree = true :=
+  (C05Tree.verdict_iff bs hbs maxSize s σ.tree).mpr
+    (heal_restores_any_tree_any_schedule bs hbs maxSize s t σ hs hpf ht hr hterm hok)
+
 theorem heal_then_valid_any_schedule (bs : Nat) (hbs : 0 < bs) (maxSize : Nat) (s : Signed) (t : Tree)
     (σ : State) (hs : SignedWF s) (ht : Wharf.Archive.TInv t) (hno : NoDirSymlink s t)
     (hr : Reach bs maxSize s (HealTS.init t) σ) (hterm : σ.terminal) (hok : σ.failed = false) :
@@ -57,47 +119,82 @@ theorem heal_then_valid_any_schedule (bs : Nat) (hbs : 0 < bs) (maxSize : Nat) (
   (C05Tree.verdict_iff bs hbs maxSize s σ.tree).mpr
     (heal_restores_any_schedule bs hbs maxSize s t σ hs ht hno hr hterm hok)
 
-/-- Under any schedule, in EVERY reachable state (terminal or not, failed or not): a path that is neither a
-    signed path, nor below one, nor an ancestor of one, holds what it held at the start.  (A failed state of the
-    model carries the tree as it was before the failing call.) -/
-theorem heal_any_schedule_unrelated (bs : Nat) (hbs : 0 < bs) (maxSize : Nat) (s : Signed) (t : Tree)
-    (σ : State) (hs : SignedWF s) (ht : Wharf.Archive.TInv t) (hno : NoDirSymlink s t)
+theorem heal_any_schedule_unrelated_either (bs : Nat) (hbs : 0 < bs) (maxSize : Nat) (s : Signed) (t : Tree)
+    (σ : State) (hs : SignedWF s) (ht : Wharf.Archive.TInv t) (hm : ParentsFirst s ∨ NoDirSymlink s t)
     (hr : Reach bs maxSize s (HealTS.init t) σ) (q : Path)
     (hq : ∀ p ∈ allPaths s, p ≠ q ∧ ¬ isPrefix p q ∧ ¬ isPrefix q p) : σ.tree.get q = t.get q := by
-  have hw : WF s := ⟨hs.clean, hs.distinct, hs.parents⟩
-  have hK := (Inv.init ht (noSymDirs_of_lstat hw ht hno)).reach_keeps bs hbs maxSize hw hr
+  have hK := (inv_init hs ht hm).reach_keeps bs hbs maxSize hs.wf hr
   apply hK.unrelated q
   intro p hp
   obtain ⟨h1, h2, h3⟩ := hq p hp
   exact ⟨h1, by simpa using h2, by simpa using h3⟩
 
-/-- With directories listed parents-first (as `tlc.Walk` lists them) NO reachable state is failed: under no
-    schedule does the validator stop with an error or a heal call (`Lstat`/`Remove`/`MkdirAll`/`Symlink`/
-    whole-file rewrite) fail.  (Without `ParentsFirst` a directory wound can be handled while an ancestor is
-    still a regular file, and `MkdirAll` fails with ENOTDIR — also in the sequential schedule.) -/
+/-- Under any schedule, in EVERY reachable state (terminal or not, failed or not), ANY damaged tree: a path that
+    is neither a signed path, nor below one, nor an ancestor of one, holds what it held at the start.  (A failed
+    state of the model carries the tree as it was before the failing call.) -/
+theorem heal_any_tree_any_schedule_unrelated (bs : Nat) (hbs : 0 < bs) (maxSize : Nat) (s : Signed) (t : Tree)
+    (σ : State) (hs : SignedWF s) (hpf : ParentsFirst s) (ht : Wharf.Archive.TInv t)
+    (hr : Reach bs maxSize s (HealTS.init t) σ) (q : Path)
+    (hq : ∀ p ∈ allPaths s, p ≠ q ∧ ¬ isPrefix p q ∧ ¬ isPrefix q p) : σ.tree.get q = t.get q :=
+  heal_any_schedule_unrelated_either bs hbs maxSize s t σ hs ht (.inl hpf) hr q hq
+
+theorem heal_any_schedule_unrelated (bs : Nat) (hbs : 0 < bs) (maxSize : Nat) (s : Signed) (t : Tree)
+    (σ : State) (hs : SignedWF s) (ht : Wharf.Archive.TInv t) (hno : NoDirSymlink s t)
+    (hr : Reach bs maxSize s (HealTS.init t) σ) (q : Path)
+    (hq : ∀ p ∈ allPaths s, p ≠ q ∧ ¬ isPrefix p q ∧ ¬ isPrefix q p) : σ.tree.get q = t.get q :=
+  heal_any_schedule_unrelated_either bs hbs maxSize s t σ hs ht (.inr hno) hr q hq
+
+/-- With directories listed parents-first NO heal call fails, under no schedule, for ANY damaged tree: no
+    reachable state has status `healerError` (`Lstat`/`Remove`/`MkdirAll`/`Symlink`/whole-file rewrite, `healBelow`
+    included).  The validator may still stop with an error (ELOOP on a chain of links, see Props/C06Restore.lean):
+    that is the only way a run can fail. -/
+theorem heal_any_tree_no_healer_failure (bs : Nat) (hbs : 0 < bs) (maxSize : Nat) (s : Signed) (t : Tree)
+    (σ : State) (hs : SignedWF s) (hpf : ParentsFirst s) (ht : Wharf.Archive.TInv t)
+    (hr : Reach bs maxSize s (HealTS.init t) σ) : σ.status ≠ .healerError :=
+  (inv_init hs ht (.inl hpf)).reach_no_healer_fail bs hbs maxSize hs.wf hpf (by simp [HealTS.init]) hr
+
+/-- With directories listed parents-first (as `tlc.Walk` lists them) and no signed directory replaced by a symlink
+    NO reachable state is failed: under no schedule does the validator stop with an error or a heal call fail.
+    (Without `ParentsFirst` a directory wound can be handled while an ancestor is still a regular file, and
+    `MkdirAll` fails with ENOTDIR — also in the sequential schedule.) -/
 theorem heal_any_schedule_no_failure (bs : Nat) (hbs : 0 < bs) (maxSize : Nat) (s : Signed) (t : Tree)
     (σ : State) (hs : SignedWF s) (hpf : ParentsFirst s) (ht : Wharf.Archive.TInv t) (hno : NoDirSymlink s t)
     (hr : Reach bs maxSize s (HealTS.init t) σ) : σ.failed = false := by
-  have hw : WF s := ⟨hs.clean, hs.distinct, hs.parents⟩
-  have := (Inv.init ht (noSymDirs_of_lstat hw ht hno)).reach_no_fail bs hbs maxSize hw hpf rfl hr
+  have := (inv_init hs ht (.inl hpf)).reach_no_fail bs hbs maxSize hs.wf hpf
+    (noSymDirs_of_lstat hs.wf ht hno) rfl hr
   simp [State.failed, this]
 
-/-- Every run ends, and with parents-first listing it ends well: a reachable state in which no transition is
-    enabled is terminal, not failed, and its tree matches the signed build. -/
+/-- Every run ends, and with parents-first listing it ends well unless the validator itself stops with an error,
+    for ANY damaged tree: a reachable state in which no transition is enabled either carries the validator's
+    error, or is terminal, not failed, and its tree matches the signed build. -/
+theorem heal_any_tree_any_schedule_completes (bs : Nat) (hbs : 0 < bs) (maxSize : Nat) (s : Signed) (t : Tree)
+    (σ : State) (hs : SignedWF s) (hpf : ParentsFirst s) (ht : Wharf.Archive.TInv t)
+    (hr : Reach bs maxSize s (HealTS.init t) σ) (hstuck : ∀ l, step bs maxSize s σ l = none) :
+    σ.status = .validatorError ∨ (σ.terminal ∧ σ.failed = false ∧ C05Tree.Matches s σ.tree) := by
+  have hnh := heal_any_tree_no_healer_failure bs hbs maxSize s t σ hs hpf ht hr
+  cases hst : σ.status with
+  | validatorError => exact .inl rfl
+  | healerError => exact absurd hst hnh
+  | running =>
+    right
+    have hok : σ.failed = false := by simp [State.failed, hst]
+    have hterm : σ.terminal := by
+      apply Classical.byContradiction
+      intro hnt
+      obtain ⟨l, σ', hl⟩ := progress bs hbs maxSize s σ hst hnt
+      rw [hstuck l] at hl
+      cases hl
+    exact ⟨hterm, hok, heal_restores_any_tree_any_schedule bs hbs maxSize s t σ hs hpf ht hr hterm hok⟩
+
+/-- as first stated (kept): with `NoDirSymlink` the validator cannot stop with an error either -/
 theorem heal_any_schedule_completes (bs : Nat) (hbs : 0 < bs) (maxSize : Nat) (s : Signed) (t : Tree)
     (σ : State) (hs : SignedWF s) (hpf : ParentsFirst s) (ht : Wharf.Archive.TInv t) (hno : NoDirSymlink s t)
     (hr : Reach bs maxSize s (HealTS.init t) σ) (hstuck : ∀ l, step bs maxSize s σ l = none) :
     σ.terminal ∧ σ.failed = false ∧ C05Tree.Matches s σ.tree := by
-  have hw : WF s := ⟨hs.clean, hs.distinct, hs.parents⟩
-  have hrun := (Inv.init ht (noSymDirs_of_lstat hw ht hno)).reach_no_fail bs hbs maxSize hw hpf rfl hr
   have hok := heal_any_schedule_no_failure bs hbs maxSize s t σ hs hpf ht hno hr
-  have hterm : σ.terminal := by
-    apply Classical.byContradiction
-    intro hnt
-    obtain ⟨l, σ', hl⟩ := progress bs hbs maxSize s σ hrun hnt
-    rw [hstuck l] at hl
-    cases hl
-  exact ⟨hterm, hok, heal_restores_any_schedule bs hbs maxSize s t σ hs ht hno hr hterm hok⟩
+  rcases heal_any_tree_any_schedule_completes bs hbs maxSize s t σ hs hpf ht hr hstuck with h | h
+  · simp [State.failed, h] at hok
+  · exact h
 
 /-- The sequential model is one schedule: if `validateAndHeal` returns `t'`, a terminal, non-failed state with
     tree `t'` is reachable (all validator steps with the exact verdicts, `vDone`, then every `hWound`, then
@@ -107,6 +204,14 @@ theorem sequential_is_a_schedule (bs : Nat) (hbs : 0 < bs) (maxSize : Nat) (s : 
     ∃ σ, Reach bs maxSize s (HealTS.init t) σ ∧ σ.terminal ∧ σ.failed = false ∧ σ.tree = t' := by
   obtain ⟨σ, h1, h2, h3, h4⟩ := sequential_reach bs hbs maxSize s t t' h
   exact ⟨σ, h1, h2, by simp [State.failed, h3], h4⟩
+
+/-- … and if the healer fails in the sequential model (after a validation that completed), a failed state is
+    reachable: the sequential model fails only where the transition system can. -/
+theorem sequential_failure_is_a_schedule (bs : Nat) (hbs : 0 < bs) (maxSize : Nat) (s : Signed) (t : Tree)
+    (ws : List Wound) (hv : validate bs maxSize s t = .ok ws)
+    (h : ∀ t', validateAndHeal bs maxSize s t ≠ .ok t') :
+    ∃ σ, Reach bs maxSize s (HealTS.init t) σ ∧ σ.status = .healerError :=
+  sequential_fail_reach bs hbs maxSize s t ws hv h
 
 /-- The per-entry verdicts used by the transition system are those of the whole-pass model: folded over a
     tree that does not change they give `TreeValidate.validate`. -/
@@ -133,6 +238,27 @@ theorem heal_schedule_progress (bs : Nat) (hbs : 0 < bs) (maxSize : Nat) (s : Si
   · intro σ σ' l hl
     exact measure_decreases (step_cases hl)
 
+/-- (i) What is in place stays in place, ANY damaged tree, in terms of what is STORED at the signed paths: from
+    any reachable state on, under any continuation of the schedule, a signed directory that is a directory
+    stays one, a signed symlink / file that is as signed stays so.  (In terms of `lstat` this is false for a tree
+    with a symlinked directory, and necessarily so: an entry seen healthy THROUGH the link goes away with the link
+    and is healed afterwards — see `healthy_stays_healthy` for the `lstat` form under `NoDirSymlink`.) -/
+theorem in_place_stays_in_place_any_tree (bs : Nat) (hbs : 0 < bs) (maxSize : Nat) (s : Signed) (t : Tree)
+    (σ σ' : State) (hs : SignedWF s) (hpf : ParentsFirst s) (ht : Wharf.Archive.TInv t)
+    (hr : Reach bs maxSize s (HealTS.init t) σ) (hr' : Reach bs maxSize s σ σ') :
+    (∀ p ∈ s.dirs, σ.tree.get p = some .dir → σ'.tree.get p = some .dir) ∧
+    (∀ e ∈ s.symlinks, σ.tree.get e.1 = some (.symlink e.2) → σ'.tree.get e.1 = some (.symlink e.2)) ∧
+    (∀ e ∈ s.files, σ.tree.get e.1 = some (.file e.2) → σ'.tree.get e.1 = some (.file e.2)) := by
+  have hK := (inv_reach hbs hs ht (.inl hpf) hr).reach_keeps bs hbs maxSize hs.wf hr'
+  refine ⟨fun p hp h => hK.dirs p hp h, ?_, ?_⟩
+  · intro e he h
+    exact hK.leaves (e.1, .symlink e.2) (sym_leaf' he) h
+  · intro e he h
+    have hleaf : (e.1, Node.file e.2) ∈ leaves s := by
+      simp only [leaves, List.mem_append, List.mem_map]
+      exact .inr ⟨e, he, rfl⟩
+    exact hK.leaves _ hleaf h
+
 /-- (i) What is healthy stays healthy: from any reachable state on, under any continuation of the schedule, a
     signed directory that is a directory stays one, a signed symlink / file that is as signed stays so. -/
 theorem healthy_stays_healthy (bs : Nat) (hbs : 0 < bs) (maxSize : Nat) (s : Signed) (t : Tree)
@@ -141,29 +267,94 @@ theorem healthy_stays_healthy (bs : Nat) (hbs : 0 < bs) (maxSize : Nat) (s : Sig
     (∀ p ∈ s.dirs, lstat σ.tree p = .ok .dir → lstat σ'.tree p = .ok .dir) ∧
     (∀ e ∈ s.symlinks, lstat σ.tree e.1 = .ok (.symlink e.2) → lstat σ'.tree e.1 = .ok (.symlink e.2)) ∧
     (∀ e ∈ s.files, lstat σ.tree e.1 = .ok (.file e.2) → lstat σ'.tree e.1 = .ok (.file e.2)) := by
-  have hw : WF s := ⟨hs.clean, hs.distinct, hs.parents⟩
-  have hI := (Inv.init ht (noSymDirs_of_lstat hw ht hno)).reach bs hbs maxSize hw hr
+  have hw := hs.wf
+  have hI := inv_reach hbs hs ht (.inr hno) hr
+  have hnσ : NoSymDirs s σ.tree :=
+    ((inv_init hs ht (.inr hno)).reach_keeps bs hbs maxSize hw hr).nosym (noSymDirs_of_lstat hw ht hno)
   have hK := hI.reach_keeps bs hbs maxSize hw hr'
   refine ⟨?_, ?_, ?_⟩
   · intro p hp hl
     have hm := mem_allPaths_dir hp
-    exact lstat_of_get hK.tinv (hw.nodd hm) (hK.dirs p hp (lstat_plain (hw.plain hI.nosym hm) hl).1)
+    exact lstat_of_get hK.tinv (hw.nodd hm) (hK.dirs p hp (lstat_plain (hw.plain hnσ hm) hl).1)
   · intro e he hl
     have hleaf : (e.1, Node.symlink e.2) ∈ leaves s := by
       simp only [leaves, List.mem_append, List.mem_map]
       exact .inl ⟨e, he, rfl⟩
     have hm := leaf_mem_allPaths hleaf
-    exact lstat_of_get hK.tinv (hw.nodd hm) (hK.leaves _ hleaf (lstat_plain (hw.plain hI.nosym hm) hl).1)
+    exact lstat_of_get hK.tinv (hw.nodd hm) (hK.leaves _ hleaf (lstat_plain (hw.plain hnσ hm) hl).1)
   · intro e he hl
     have hleaf : (e.1, Node.file e.2) ∈ leaves s := by
       simp only [leaves, List.mem_append, List.mem_map]
       exact .inr ⟨e, he, rfl⟩
     have hm := leaf_mem_allPaths hleaf
-    exact lstat_of_get hK.tinv (hw.nodd hm) (hK.leaves _ hleaf (lstat_plain (hw.plain hI.nosym hm) hl).1)
+    exact lstat_of_get hK.tinv (hw.nodd hm) (hK.leaves _ hleaf (lstat_plain (hw.plain hnσ hm) hl).1)
 
-/-- (ii) Nothing the validator has inspected is forgotten: in every reachable state, an entry the validator has
-    passed is as signed, or its wound is still in the channel, or (a file) its index is queued and not yet
-    rewritten.  Together with termination this is "every wounded entry is eventually healed". -/
+/-- some signed directory strictly above `p` is a symlink in `t` (what the validator sees at `p` is seen through
+    that link) -/
+def BelowLink (s : Signed) (t : Tree) (p : Path) : Prop :=
+  ∃ a ∈ s.dirs, isPrefix a p = true ∧ ∃ x, lstat t a = .ok (.symlink x)
+
+theorem belowLink_of_linked {s : Signed} (hs : SignedWF s) {t : Tree} (hI : Wharf.Archive.TInv t) {p : Path}
+    (hp : p ∈ Heal.allPaths s) (h : Linked t p) : BelowLink s t p := by
+  obtain ⟨a, ha, hap, ⟨x, hx⟩, _⟩ := h.top hs.wf hI hp
+  exact ⟨a, ha, hap, x, lstat_of_get hI (hs.wf.nodd (mem_allPaths_dir ha)) hx⟩
+
+/-- (ii) Nothing the validator has inspected is forgotten, ANY damaged tree: in every reachable state, an entry the
+    validator has passed is as signed, or its wound is still in the channel, or (a file) its index is queued
+    and not yet rewritten, or it lies below a signed directory that is still a symlink — whose own wound is then
+    still in the channel (first conjunct, applied to that directory, which lies below no link itself) and whose
+    healing will heal the entry (`healBelow`).  Together with termination this is "every wounded entry is
+    eventually healed".  Fourth conjunct: a file is queued only when its parent directory is in place (the healing
+    goroutine never writes through a link, never fails on a missing parent). -/
+theorem inspected_entries_accounted_any_tree (bs : Nat) (hbs : 0 < bs) (maxSize : Nat) (s : Signed) (t : Tree)
+    (σ : State) (hs : SignedWF s) (hpf : ParentsFirst s) (ht : Wharf.Archive.TInv t)
+    (hr : Reach bs maxSize s (HealTS.init t) σ) :
+    (∀ j p, s.dirs[j]? = some p → j < σ.dirPos →
+      lstat σ.tree p = .ok .dir ∨ (∃ w ∈ σ.chan, w.kind = .dir ∧ w.index = j) ∨ BelowLink s σ.tree p) ∧
+    (∀ j p d, s.symlinks[j]? = some (p, d) → j < σ.symPos →
+      lstat σ.tree p = .ok (.symlink d) ∨ (∃ w ∈ σ.chan, w.kind = .symlink ∧ w.index = j) ∨
+        BelowLink s σ.tree p) ∧
+    (∀ j p S, s.files[j]? = some (p, S) → j < σ.filePos →
+      lstat σ.tree p = .ok (.file S) ∨ (∃ w ∈ σ.chan, w.kind = .file ∧ w.index = j) ∨
+        j ∈ σ.queue.drop σ.healed ∨ BelowLink s σ.tree p) ∧
+    (∀ i ∈ σ.queue, ∃ p S, s.files[i]? = some (p, S) ∧ lstat σ.tree p.dropLast = .ok .dir) := by
+  have hw := hs.wf
+  have hI := inv_reach hbs hs ht (.inl hpf) hr
+  refine ⟨?_, ?_, ?_, ?_⟩
+  · intro j p hj hlt
+    have hm := mem_allPaths_dir (List.mem_of_getElem? hj)
+    rcases hI.dirs j p hj hlt with h | h | h
+    · exact .inl (lstat_of_get hI.tinv (hw.nodd hm) h)
+    · exact .inr (.inl h)
+    · exact .inr (.inr (belowLink_of_linked hs hI.tinv hm h))
+  · intro j p d hj hlt
+    have hm := leaf_mem_allPaths (sym_leaf hj)
+    rcases hI.syms j (p, d) hj hlt with h | h | h
+    · exact .inl (lstat_of_get hI.tinv (hw.nodd hm) h)
+    · exact .inr (.inl h)
+    · exact .inr (.inr (belowLink_of_linked hs hI.tinv hm h))
+  · intro j p S hj hlt
+    have hm := leaf_mem_allPaths (file_leaf hj)
+    rcases hI.files j (p, S) hj hlt with h | h | h | h
+    · exact .inl (lstat_of_get hI.tinv (hw.nodd hm) h)
+    · exact .inr (.inl h)
+    · exact .inr (.inr (.inl h))
+    · exact .inr (.inr (.inr (belowLink_of_linked hs hI.tinv hm h)))
+  · intro i hi
+    obtain ⟨e, he, hpar⟩ := hI.queueReady i hi
+    refine ⟨e.1, e.2, he, lstat_of_get hI.tinv ?_ hpar⟩
+    intro hdd
+    exact hw.nodd (leaf_mem_allPaths (file_leaf he)) (Wharf.Archive.mem_of_mem_dropLast hdd)
+
+/-- (ii) as first stated, under `NoDirSymlink` — first three conjuncts unchanged (nothing is ever seen through a
+    link).
+
+    The fourth conjunct CHANGED with the repair of F15.  It used to read `∀ i ∈ σ.queue, i < σ.filePos` ("a file is
+    queued only after the validator has sent a wound for it"), which is FALSE for the fixed code, and deliberately
+    so: a directory wound whose directory had been replaced by something else (here, `NoDirSymlink`: by a regular
+    file) queues every file below it at once — `queued_before_inspected` below: schedule `[vDir, hWound]` on
+    `exWrecked` gives `queue = [0]` while `filePos = 0`.  What is true, and what matters for the healing goroutine:
+    a file is queued only when its parent directory is in place. -/
 theorem inspected_entries_accounted (bs : Nat) (hbs : 0 < bs) (maxSize : Nat) (s : Signed) (t : Tree)
     (σ : State) (hs : SignedWF s) (ht : Wharf.Archive.TInv t) (hno : NoDirSymlink s t)
     (hr : Reach bs maxSize s (HealTS.init t) σ) :
@@ -174,56 +365,98 @@ theorem inspected_entries_accounted (bs : Nat) (hbs : 0 < bs) (maxSize : Nat) (s
     (∀ j p S, s.files[j]? = some (p, S) → j < σ.filePos →
       lstat σ.tree p = .ok (.file S) ∨ (∃ w ∈ σ.chan, w.kind = .file ∧ w.index = j) ∨
         j ∈ σ.queue.drop σ.healed) ∧
-    (∀ i ∈ σ.queue, i < σ.filePos) := by
-  have hw : WF s := ⟨hs.clean, hs.distinct, hs.parents⟩
-  have hI := (Inv.init ht (noSymDirs_of_lstat hw ht hno)).reach bs hbs maxSize hw hr
-  refine ⟨?_, ?_, ?_, hI.queueLt⟩
+    (∀ i ∈ σ.queue, ∃ p S, s.files[i]? = some (p, S) ∧ lstat σ.tree p.dropLast = .ok .dir) := by
+  have hw := hs.wf
+  have hI := inv_reach hbs hs ht (.inr hno) hr
+  have hnσ : NoSymDirs s σ.tree :=
+    ((inv_init hs ht (.inr hno)).reach_keeps bs hbs maxSize hw hr).nosym (noSymDirs_of_lstat hw ht hno)
+  refine ⟨?_, ?_, ?_, ?_⟩
   · intro j p hj hlt
-    rcases hI.dirs j p hj hlt with h | h
-    · exact .inl (lstat_of_get hI.tinv (hw.nodd (mem_allPaths_dir (List.mem_of_getElem? hj))) h)
+    have hm := mem_allPaths_dir (List.mem_of_getElem? hj)
+    rcases hI.dirs j p hj hlt with h | h | h
+    · exact .inl (lstat_of_get hI.tinv (hw.nodd hm) h)
     · exact .inr h
+    · exact absurd h (not_linked_of_nosym hw hnσ hm)
   · intro j p d hj hlt
-    rcases hI.syms j (p, d) hj hlt with h | h
-    · exact .inl (lstat_of_get hI.tinv (hw.nodd (leaf_mem_allPaths (sym_leaf hj))) h)
+    have hm := leaf_mem_allPaths (sym_leaf hj)
+    rcases hI.syms j (p, d) hj hlt with h | h | h
+    · exact .inl (lstat_of_get hI.tinv (hw.nodd hm) h)
     · exact .inr h
+    · exact absurd h (not_linked_of_nosym hw hnσ hm)
   · intro j p S hj hlt
-    rcases hI.files j (p, S) hj hlt with h | h
-    · exact .inl (lstat_of_get hI.tinv (hw.nodd (leaf_mem_allPaths (file_leaf hj))) h)
-    · exact .inr h
+    have hm := leaf_mem_allPaths (file_leaf hj)
+    rcases hI.files j (p, S) hj hlt with h | h | h | h
+    · exact .inl (lstat_of_get hI.tinv (hw.nodd hm) h)
+    · exact .inr (.inl h)
+    · exact .inr (.inr h)
+    · exact absurd h (not_linked_of_nosym hw hnσ hm)
+  · intro i hi
+    obtain ⟨e, he, hpar⟩ := hI.queueReady i hi
+    refine ⟨e.1, e.2, he, lstat_of_get hI.tinv ?_ hpar⟩
+    intro hdd
+    exact hw.nodd (leaf_mem_allPaths (file_leaf he)) (Wharf.Archive.mem_of_mem_dropLast hdd)
+
+/-- (iii) What is STORED at the signed paths changes only by healing, ANY damaged tree: in every reachable state,
+    a file entry that has not been rewritten holds what it held in `t`; a symlink entry not yet inspected holds
+    what it held in `t` or is as signed already (`healBelow`); a directory entry not yet inspected holds what it
+    held in `t` or is a directory already.  (The VERDICT on an entry below a symlinked directory does change when
+    the link is replaced — from whatever was seen through the link to "missing" — which is exactly why `healBelow`
+    heals everything below it; for entries that lie below no link, see `verdict_on_untouched_entry`.) -/
+theorem stored_on_untouched_entry_any_tree (bs : Nat) (hbs : 0 < bs) (maxSize : Nat) (s : Signed) (t : Tree)
+    (σ : State) (hs : SignedWF s) (hpf : ParentsFirst s) (ht : Wharf.Archive.TInv t)
+    (hr : Reach bs maxSize s (HealTS.init t) σ) :
+    (∀ j p, s.dirs[j]? = some p → σ.dirPos ≤ j → σ.tree.get p = t.get p ∨ σ.tree.get p = some .dir) ∧
+    (∀ j p d, s.symlinks[j]? = some (p, d) → σ.symPos ≤ j →
+      σ.tree.get p = t.get p ∨ σ.tree.get p = some (.symlink d)) ∧
+    (∀ j p S, s.files[j]? = some (p, S) → j ∉ σ.queue.take σ.healed → σ.tree.get p = t.get p) := by
+  have hU := Untouched.reach bs hbs maxSize hs.wf (inv_init hs ht (.inl hpf)) hr
+  exact ⟨fun j p hj hle => hU.dirs j p hj hle, fun j p d hj hle => hU.syms j (p, d) hj hle,
+    fun j p S hj hnm => hU.files j (p, S) hj hnm⟩
 
 /-- (iii) The validator's verdict on an entry no heal step has touched is its verdict on the initial tree: in
-    every reachable state, a symlink entry not yet inspected and a file entry not yet rewritten get the verdict
-    they would have got on `t`; a directory entry not yet inspected gets the verdict it would have got on `t`,
-    or "healthy" (an `MkdirAll` for a deeper directory has created it meanwhile).  In particular the file the
-    validator is reading does not change under its feet until the healing goroutine rewrites that very file —
-    which is what makes the atomic `vFile` step sound (see `Wharf.HealTS.admissible`). -/
+    every reachable state, a file entry not yet rewritten gets the verdict it would have got on `t`; a symlink
+    entry not yet inspected gets the verdict it would have got on `t`, or "healthy"; a directory entry not yet
+    inspected gets the verdict it would have got on `t`, or "healthy" (an `MkdirAll` for a deeper directory, or
+    `healBelow`, has created it meanwhile).  In particular the file the validator is reading does not change
+    under its feet until the healing goroutine rewrites that very file — which is what makes the atomic `vFile`
+    step sound (see `Wharf.HealTS.admissible`).
+
+    The second conjunct CHANGED with the repair of F15 (the alternative "or healthy" is new): a symlink below a
+    directory that had been replaced (here, `NoDirSymlink`: by a regular file) is put in place by `healBelow`,
+    possibly before the validator reaches it — `symlink_healed_before_inspected` below.  The former statement
+    (`symlinkEntry σ.tree j p d = symlinkEntry t j p d`) is false for the fixed code. -/
 theorem verdict_on_untouched_entry (bs : Nat) (hbs : 0 < bs) (maxSize : Nat) (s : Signed) (t : Tree)
     (σ : State) (hs : SignedWF s) (ht : Wharf.Archive.TInv t) (hno : NoDirSymlink s t)
     (hr : Reach bs maxSize s (HealTS.init t) σ) :
     (∀ j p, s.dirs[j]? = some p → σ.dirPos ≤ j →
       dirEntry σ.tree j p = dirEntry t j p ∨ dirEntry σ.tree j p = .ok []) ∧
     (∀ j p d, s.symlinks[j]? = some (p, d) → σ.symPos ≤ j →
-      symlinkEntry σ.tree j p d = symlinkEntry t j p d) ∧
+      symlinkEntry σ.tree j p d = symlinkEntry t j p d ∨ symlinkEntry σ.tree j p d = .ok []) ∧
     (∀ j p S, s.files[j]? = some (p, S) → j ∉ σ.queue.take σ.healed →
       fileEntry bs maxSize σ.tree j p S = fileEntry bs maxSize t j p S) := by
-  have hw : WF s := ⟨hs.clean, hs.distinct, hs.parents⟩
+  have hw := hs.wf
   have hn := noSymDirs_of_lstat hw ht hno
-  have hI0 := Inv.init ht hn
+  have hI0 := inv_init hs ht (.inr hno)
   have hI := hI0.reach bs hbs maxSize hw hr
+  have hnσ : NoSymDirs s σ.tree := (hI0.reach_keeps bs hbs maxSize hw hr).nosym hn
   have hU := Untouched.reach bs hbs maxSize hw hI0 hr
   refine ⟨?_, ?_, ?_⟩
   · intro j p hj hle
     have hm := mem_allPaths_dir (List.mem_of_getElem? hj)
     rcases hU.dirs j p hj hle with h | h
-    · exact .inl (dirEntry_eq_of_get ht hI.tinv (hw.plain hn hm) (hw.plain hI.nosym hm) h j)
+    · exact .inl (dirEntry_eq_of_get ht hI.tinv (hw.plain hn hm) (hw.plain hnσ hm) h j)
     · right
-      rw [dirEntry_of_get hI.tinv (hw.plain hI.nosym hm), show σ.tree.get p = some .dir from h]
+      rw [dirEntry_of_get hI.tinv (hw.plain hnσ hm), show σ.tree.get p = some .dir from h]
   · intro j p d hj hle
     have hm := leaf_mem_allPaths (sym_leaf hj)
-    exact symlinkEntry_eq_of_get ht hI.tinv (hw.plain hn hm) (hw.plain hI.nosym hm) (hU.syms j (p, d) hj hle) j d
+    rcases hU.syms j (p, d) hj hle with h | h
+    · exact .inl (symlinkEntry_eq_of_get ht hI.tinv (hw.plain hn hm) (hw.plain hnσ hm) h j d)
+    · right
+      rw [symlinkEntry_of_get hI.tinv (hw.plain hnσ hm), show σ.tree.get p = some (.symlink d) from h]
+      simp
   · intro j p S hj hnm
     have hm := leaf_mem_allPaths (file_leaf hj)
-    exact fileEntry_eq_of_get bs maxSize ht hI.tinv (hw.plain hn hm) (hw.plain hI.nosym hm)
+    exact fileEntry_eq_of_get bs maxSize ht hI.tinv (hw.plain hn hm) (hw.plain hnσ hm)
       (hU.files j (p, S) hj hnm) j S
 
 /-! ### non-vacuity: explicit schedules on the wrecked example of C06.lean
@@ -302,5 +535,74 @@ example : (run 2 100 C05Tree.exSigned (HealTS.init C05Tree.exDamaged)
 example : (match run 2 100 { dirs := [["a", "b"], ["a"]] } (HealTS.init { entries := [(["a"], .file [7])] })
       [.vDir, .hWound] with
       | some σ => σ.failed | none => false) = true := by decide
+
+/-! ### the changed statements: instances; the F15 instance under explicit schedules -/
+
+/-- Behind the CHANGED fourth conjunct of `inspected_entries_accounted`: on `exWrecked` (a regular file stands at
+    the signed directory `a`) the schedule `[vDir, hWound]` leaves file 0 (`a/f`) queued while the validator has
+    not inspected any file yet — `healBelow("a")` queued it. -/
+theorem queued_before_inspected :
+    (match run 2 100 C05Tree.exSigned (HealTS.init exWrecked) [.vDir, .hWound] with
+     | some σ => (σ.queue, σ.filePos) | none => ([], 1)) = ([0], 0) := by decide
+
+/-- a signed symlink below a signed directory -/
+def exSymBelow : Signed := { dirs := [["a"]], symlinks := [(["a", "l"], "x")] }
+
+/-- Behind the CHANGED second conjunct of `verdict_on_untouched_entry`: a regular file stands at `a`; after
+    `[vDir, hWound]` the symlink `a/l`, which the validator has not inspected yet, is in place already
+    (`healBelow("a")`), so its verdict is "healthy", whereas on the initial tree it is a wound. -/
+theorem symlink_healed_before_inspected :
+    (match run 2 100 exSymBelow (HealTS.init { entries := [(["a"], .file [7])] }) [.vDir, .hWound] with
+     | some σ => (σ.symPos, match symlinkEntry σ.tree 0 ["a", "l"] "x" with | .ok ws => some ws | _ => none)
+     | none => (1, none)) = (0, some []) ∧
+    (match symlinkEntry { entries := [(["a"], .file [7])] } 0 ["a", "l"] "x" with
+     | .ok ws => some ws | _ => none) = some [⟨.symlink, 0, 0, 0⟩] := by
+  decide
+
+/-- F15 (`exF15Signed` / `exF15Tree`: `a` is a symlink to the moved copy `b`), healer eager: the directory wound is
+    handled before the validator looks at `a/f`; the link is gone by then, the validator finds `a/f` missing and
+    sends a wound for a file that `healBelow` has queued already (ignored: `files[0]` is set). -/
+def schedF15Eager : List Label :=
+  [.vDir, .hWound, .vFile [⟨.file, 0, 0, 3⟩], .hWound, .hFile, .vDone]
+
+/-- F15, the file rewritten BEFORE the validator reaches it: the validator then finds it healthy. -/
+def schedF15Early : List Label :=
+  [.vDir, .hWound, .hFile, .vFile [⟨.closedFile, 0, 0, 2⟩, ⟨.closedFile, 0, 2, 3⟩], .vDone, .hWound, .hWound]
+
+example : (match run 2 100 exF15Signed (HealTS.init exF15Tree) schedF15Eager with
+      | some σ => (decide σ.terminal && !σ.failed, σ.queue, σ.tree.entries, failFastOk 2 100 exF15Signed σ.tree)
+      | none => (false, [], [], false))
+    = (true, [0], [(["b"], .dir), (["b", "f"], .file [1, 2, 3]), (["a"], .dir), (["a", "f"], .file [1, 2, 3])],
+       true) := by
+  decide
+
+example : (match run 2 100 exF15Signed (HealTS.init exF15Tree) schedF15Early with
+      | some σ => (decide σ.terminal && !σ.failed, σ.queue, σ.tree.entries, failFastOk 2 100 exF15Signed σ.tree)
+      | none => (false, [], [], false))
+    = (true, [0], [(["b"], .dir), (["b", "f"], .file [1, 2, 3]), (["a"], .dir), (["a", "f"], .file [1, 2, 3])],
+       true) := by
+  decide
+
+/-- (The validator-first schedule on this instance is `f15_heals`, Props/C06Restore.lean, through
+    `sequential_is_a_schedule`; it cannot be evaluated by `decide` because the validator resolves `a/f` through
+    the link — `String.splitOn`.)  The hypotheses of the any-tree theorems hold for the F15 instance: -/
+example : SignedWF exF15Signed ∧ ParentsFirst exF15Signed ∧ Wharf.Archive.TInv exF15Tree ∧
+    ¬ NoDirSymlink exF15Signed exF15Tree := by
+  refine ⟨⟨by decide, by decide, ?_⟩, ?_, ⟨by decide, by decide, ?_⟩, ?_⟩
+  · intro p hp j hj1 hj2
+    simp only [allPaths, exF15Signed, List.map_cons, List.map_nil, List.cons_append, List.nil_append,
+      List.mem_cons, List.not_mem_nil, or_false] at hp
+    rcases hp with rfl | rfl
+    · simp at hj2; omega
+    · have : j = 1 := by simp at hj2; omega
+      subst this; decide
+  · intro i h j hj1 hj2
+    simp only [exF15Signed, List.length_cons, List.length_nil] at h
+    have : i = 0 := by omega
+    subst this
+    simp [exF15Signed] at hj2; omega
+  · unfold Wharf.Archive.IsDir; decide
+  · intro h
+    exact h ["a"] (by decide) "b" (by rfl)
 
 end Wharf.C06
